@@ -42,6 +42,10 @@ impl Report {
     }
     pub fn fail(&mut self, func: &str, input: String, expected: String, got: String, class: &str) {
         *self.fail_counts.entry(func.to_string()).or_insert(0) += 1;
+        *self.fail_counts.entry(format!("{}/{}", func, class)).or_insert(0) += 1;
+        if self.failures.iter().filter(|f| f.func == func && f.class == class).count() < 3 && self.failures.iter().filter(|f| f.func == func).count() >= 6 {
+            self.failures.push(Failure { func: func.into(), input: input.clone(), expected: expected.clone(), got: got.clone(), class: class.into() });
+        }
         if self.failures.iter().filter(|f| f.func == func).count() < 6 {
             self.failures.push(Failure { func: func.into(), input, expected, got, class: class.into() });
         }
